@@ -136,14 +136,47 @@ theorem reject_bad_numbers (o : Opts) (v : Bytes) (rest : List (Bytes × Bytes))
   · rw [decodeQuery, if_neg kHeartbeat_ne_kConnectionTimeout.symm,
       if_neg kChannelMax_ne_kConnectionTimeout.symm, if_pos rfl, h]
 
-/-- The secure-only entry points reject every `amqp://` URL that decodes, with InsecureUrl, and
-    otherwise behave exactly like the insecure ones. -/
+/- statement before fix D21 (secure-only check after `decode`): only an `amqp://` URL that DECODES
+   was rejected with InsecureUrl, and every error of the insecure entry points was also the error
+   of the secure-only ones:
+
+     theorem secure_only (p : Parts) :
+         (∀ d, openUrl true p = .ok d → d.secure = false → openUrl false p = .error .insecureUrl) ∧
+         (∀ d, openUrl true p = .ok d → d.secure = true → openUrl false p = .ok d) ∧
+         (∀ e, openUrl true p = .error e → openUrl false p = .error e) ∧
+         (∀ d, openUrl false p = .ok d → d.secure = true)
+
+   The third conjunct is FALSE for the fixed code.  Counterexample (the `example` below the
+   theorem): scheme `amqp`, query `x=1` (an unknown parameter):
+   `openUrl true p = .error (.urlUnsupportedParameter "x")` but `openUrl false p = .error .insecureUrl`.
+   (Before the fix the secure-only entry points answered `UrlUnsupportedParameter` for it, i.e. an
+   insecure URL was not reported as such: finding D21.) -/
+/-- The secure-only entry points reject EVERY amqp:// URL with InsecureUrl - also one with another
+    defect (finding D21) - and otherwise behave exactly like the insecure ones. -/
 theorem secure_only (p : Parts) :
-    (∀ d, openUrl true p = .ok d → d.secure = false → openUrl false p = .error .insecureUrl) ∧
+    -- EVERY amqp:// URL (that parses and has a usable host) is refused as insecure, whatever else
+    -- is wrong with it
+    (p.parsed = true → ¬((p.host = none ∨ p.host = some []) ∧ p.cannotBeABase = true) →
+      p.scheme = kAmqp → openUrl false p = .error .insecureUrl) ∧
     (∀ d, openUrl true p = .ok d → d.secure = true → openUrl false p = .ok d) ∧
-    (∀ e, openUrl true p = .error e → openUrl false p = .error e) ∧
+    (∀ e, openUrl true p = .error e → p.scheme ≠ kAmqp → openUrl false p = .error e) ∧
     (∀ d, openUrl false p = .ok d → d.secure = true) :=
-  ⟨openUrl_insecure_rejected, openUrl_secure_same, openUrl_error_same, openUrl_false_secure⟩
+  ⟨openUrl_false_amqp p, openUrl_secure_same, openUrl_error_same, openUrl_false_secure⟩
+
+/-- The old first conjunct is a consequence: an `amqp://` URL the insecure entry points accept is
+    rejected with InsecureUrl by the secure-only ones. -/
+theorem secure_only_accepted (p : Parts) (d : Decoded) (h : openUrl true p = .ok d)
+    (hs : d.secure = false) : openUrl false p = .error .insecureUrl :=
+  openUrl_insecure_rejected d h hs
+
+/-- D21 witness: `amqp://h/?x=1`. -/
+def d21Witness : Parts :=
+  ⟨true, false, kAmqp, [], none, some [104], none, some [[]], [([120], [49])]⟩
+
+example :
+    openUrl true d21Witness = .error (.urlUnsupportedParameter [120]) ∧
+    openUrl false d21Witness = .error .insecureUrl := by
+  constructor <;> rfl
 
 example : (openUrl true ⟨true, false, kAmqp, [117, 115, 37, 54, 53, 114], some [112, 37, 52, 48, 115, 115], some [104], some 99,
     some [[118, 37, 50, 102, 104]], [(kHeartbeat, [53]), (kChannelMax, [48, 48, 55])]⟩).toOption
